@@ -400,6 +400,114 @@ def _new_flag(new_fn):
     return _Flags(cls, var).cond(found[0].test)
 
 
+WCM = "_InterfaceClassWithCustomMethods"
+
+
+def _new_construction(new_fn, classes):
+    """InterfaceClass.__new__: which class the new interface gets.
+        needs_custom_class = attrs.pop(INTERFACE_METHODS, None)
+        if needs_custom_class:
+            ...
+            if issubclass(cls, _InterfaceClassWithCustomMethods): cls_bases = (cls,)
+            elif cls is InterfaceClass: cls_bases = (_InterfaceClassWithCustomMethods,)
+            else: cls_bases = (cls, _InterfaceClassWithCustomMethods)
+            cls = type(cls)(name + "<WithCustomMethods>", cls_bases, needs_custom_class)
+        return _InterfaceClassBase.__new__(cls)
+    -> Coq text of new_class_bases (cls_is_custom cls_is_interfaceclass : bool) : list cbase."""
+    cls = new_fn.args.args[0].arg
+    stmts = _strip_doc(new_fn.body)
+    var = None
+    for st in stmts:
+        if (isinstance(st, ast.Assign) and len(st.targets) == 1 and isinstance(st.targets[0], ast.Name)
+                and isinstance(st.value, ast.Call) and isinstance(st.value.func, ast.Attribute)
+                and st.value.func.attr == "pop" and len(st.value.args) == 2
+                and isinstance(st.value.args[0], ast.Name) and st.value.args[0].id == "INTERFACE_METHODS"):
+            var = st.targets[0].id
+    guard = [st for st in stmts if isinstance(st, ast.If) and isinstance(st.test, ast.Name) and st.test.id == var][0]
+    # the last statement returns an instance of (the possibly replaced) cls
+    last = stmts[-1]
+    ok = (isinstance(last, ast.Return) and isinstance(last.value, ast.Call) and not last.value.keywords
+          and isinstance(last.value.func, ast.Attribute) and last.value.func.attr == "__new__"
+          and isinstance(last.value.func.value, ast.Name) and last.value.func.value.id == "_InterfaceClassBase"
+          and len(last.value.args) == 1 and isinstance(last.value.args[0], ast.Name) and last.value.args[0].id == cls)
+    if not ok:
+        _fail(last, "__new__ does not end with `return _InterfaceClassBase.__new__(cls)`")
+    # cls is assigned exactly once, inside the guard, and nowhere else
+    assigns = [n for n in ast.walk(new_fn) if isinstance(n, ast.Assign)
+               and any(isinstance(t, ast.Name) and t.id == cls for t in n.targets)]
+    inner = [st for st in guard.body if st in assigns]
+    if len(assigns) != 1 or len(inner) != 1:
+        _fail(new_fn, "cls is not rebound exactly once, directly inside `if %s:`" % var)
+    mk = inner[0].value
+    ok = (isinstance(mk, ast.Call) and not mk.keywords and len(mk.args) == 3
+          and isinstance(mk.func, ast.Call) and isinstance(mk.func.func, ast.Name) and mk.func.func.id == "type"
+          and len(mk.func.args) == 1 and isinstance(mk.func.args[0], ast.Name) and mk.func.args[0].id == cls
+          and isinstance(mk.args[1], ast.Name) and isinstance(mk.args[2], ast.Name) and mk.args[2].id == var)
+    if not ok:
+        _fail(inner[0], "the custom class is not created by `cls = type(cls)(<name>, <bases>, %s)`" % var)
+    bases_var = mk.args[1].id
+    # the if / elif / else that chooses the bases: directly inside the guard, before the creation
+    choosers = [st for st in guard.body if isinstance(st, ast.If) and any(
+        isinstance(n, ast.Name) and n.id == bases_var and isinstance(n.ctx, ast.Store) for n in ast.walk(st))]
+    stores = [n for n in ast.walk(new_fn) if isinstance(n, ast.Name) and n.id == bases_var and isinstance(n.ctx, ast.Store)]
+    if len(choosers) != 1 or guard.body.index(choosers[0]) > guard.body.index(inner[0]):
+        _fail(new_fn, "expected one if/elif/else choosing %s before the class is created" % bases_var)
+
+    def tup(n):
+        if not isinstance(n, ast.Tuple) or not n.elts:
+            _fail(n, "bases are not a non-empty tuple display")
+        out = []
+        for e in n.elts:
+            if isinstance(e, ast.Name) and e.id == cls:
+                out.append("CCls")
+            elif isinstance(e, ast.Name) and e.id == WCM:
+                out.append("CWcm")
+            else:
+                _fail(e, "unknown base of the custom class")
+        return _clist(out)
+
+    def cond(n):
+        if (isinstance(n, ast.Call) and isinstance(n.func, ast.Name) and n.func.id == "issubclass" and not n.keywords
+                and len(n.args) == 2 and isinstance(n.args[0], ast.Name) and n.args[0].id == cls
+                and isinstance(n.args[1], ast.Name) and n.args[1].id == WCM):
+            return "cls_is_custom"
+        if (isinstance(n, ast.Compare) and len(n.ops) == 1 and isinstance(n.ops[0], ast.Is)
+                and isinstance(n.left, ast.Name) and n.left.id == cls
+                and isinstance(n.comparators[0], ast.Name) and n.comparators[0].id == "InterfaceClass"):
+            return "cls_is_interfaceclass"
+        _fail(n, "unsupported condition on cls")
+
+    count = [0]
+
+    def branch(body):
+        if len(body) == 1 and isinstance(body[0], ast.If):
+            return chain(body[0])
+        if (len(body) == 1 and isinstance(body[0], ast.Assign) and len(body[0].targets) == 1
+                and isinstance(body[0].targets[0], ast.Name) and body[0].targets[0].id == bases_var):
+            count[0] += 1
+            return tup(body[0].value)
+        _fail(body[0] if body else new_fn, "branch does not just assign %s" % bases_var)
+
+    def chain(st):
+        if not st.orelse:
+            _fail(st, "bases chooser without a final else")
+        return "(if %s then %s else %s)" % (cond(st.test), branch(st.body), branch(st.orelse))
+
+    text = chain(choosers[0])
+    if count[0] != len(stores):
+        _fail(new_fn, "%s is assigned outside the chooser" % bases_var)
+    # _InterfaceClassWithCustomMethods(InterfaceClass) defines nothing
+    if WCM not in classes:
+        raise TranslationError("class %s not found" % WCM)
+    w = classes[WCM]
+    if [b.id for b in w.bases if isinstance(b, ast.Name)] != ["InterfaceClass"] or len(w.bases) != 1:
+        raise TranslationError("%s is not a direct subclass of InterfaceClass only" % WCM)
+    for st in _strip_doc(w.body):
+        if not isinstance(st, ast.Pass):
+            _fail(st, "%s has a non-empty body" % WCM)
+    return text
+
+
 def _isc_flags(isc_fn):
     """InterfaceClass.__init_subclass__ -> (cond for _CALL_CUSTOM_ADAPT, cond for _CALL_CUSTOM_PROVIDEDBY)."""
     if isc_fn is None:
@@ -483,6 +591,7 @@ def translate_source(text, origin="interface.py"):
     if adapt_fn.args.defaults:
         _fail(adapt_fn, "default in __adapt__")
     new_flag = _new_flag(new_fn)
+    new_bases = _new_construction(new_fn, classes)
     isc_adapt, isc_prov = _isc_flags(isc[0] if isc else None)
     lines = [HEADER % origin,
              "Definition call_body : list stmt :=\n  %s.\n" % call_body,
@@ -490,6 +599,9 @@ def translate_source(text, origin="interface.py"):
              "Definition call_conform_body : list stmt :=\n  %s.\n" % conform_body,
              "(* adapt_in_methods: '__adapt__' in the interfacemethods; getattr_flag: getattr(cls, FLAG, False) *)",
              "Definition new_flag_adapt (adapt_in_methods getattr_flag : bool) : bool :=\n  %s.\n" % new_flag,
+             "(* the bases of the custom-methods class InterfaceClass.__new__ creates when the body has interfacemethods;\n"
+             "   cls_is_custom: issubclass(cls, _InterfaceClassWithCustomMethods); cls_is_interfaceclass: cls is InterfaceClass *)",
+             "Definition new_class_bases (cls_is_custom cls_is_interfaceclass : bool) : list cbase :=\n  %s.\n" % new_bases,
              "(* adapt_overridden: cls.__adapt__ is not InterfaceBase.__adapt__; prov_overridden likewise *)",
              "Definition isc_flag_adapt (adapt_overridden prov_overridden : bool) : bool :=\n  %s.\n" % isc_adapt,
              "Definition isc_flag_prov (adapt_overridden prov_overridden : bool) : bool :=\n  %s.\n" % isc_prov]
@@ -560,6 +672,16 @@ class InterfaceClass:
                 getattr(cls, '_CALL_CUSTOM_ADAPT', False)
             ):
                 needs_custom_class['_CALL_CUSTOM_ADAPT'] = 1
+
+            if issubclass(cls, _InterfaceClassWithCustomMethods):
+                cls_bases = (cls,)
+            elif cls is InterfaceClass:
+                cls_bases = (_InterfaceClassWithCustomMethods,)
+            else:
+                cls_bases = (cls, _InterfaceClassWithCustomMethods)
+
+            cls = type(cls)(name + "<WithCustomMethods>", cls_bases, needs_custom_class)
+
         return _InterfaceClassBase.__new__(cls)
 
     def _call_conform(self, conform):
@@ -569,6 +691,13 @@ class InterfaceClass:
             if sys.exc_info()[2].tb_next is not None:
                 raise
         return None
+'''
+
+
+PINNED_SOURCE += '''
+
+class _InterfaceClassWithCustomMethods(InterfaceClass):
+    pass
 '''
 
 
